@@ -87,6 +87,15 @@ impl<E: FieldElement, H: ElementHasher<BaseField = E::BaseField>> VerifierChanne
             ConstraintQueries::new(constraint_queries, air, num_unique_queries as usize)?;
 
         // --- parse FRI proofs -------------------------------------------------------------------
+        // the number of layers is determined by the FRI options; a proof with fewer or more
+        // layers cannot be valid (and the FRI verifier expects all of them to be present)
+        if fri_proof.num_layers() != fri_options.num_fri_layers(lde_domain_size) {
+            return Err(VerifierError::ProofDeserializationError(format!(
+                "expected {} FRI layers, but the proof contains {}",
+                fri_options.num_fri_layers(lde_domain_size),
+                fri_proof.num_layers()
+            )));
+        }
         let fri_num_partitions = fri_proof.num_partitions();
         let fri_remainder = fri_proof
             .parse_remainder()
